@@ -11,8 +11,8 @@ LEVEL = "other"
 BUDGET = {"quick": 120, "thorough": 1500}
 EXPLANATION = (
     "The real dask.core.toposort / getcycle / isdag (all backed by _toposort) are executed on every directed graph with N "
-    "nodes given as an adjacency bit matrix (self-loops included) and, for getcycle/isdag, every non-empty subset of start "
-    "keys, both through the `dependencies=` argument and as real legacy graphs. Assertions: toposort returns every key exactly "
+    "nodes given as an adjacency bit matrix (self-loops included) and, for getcycle/isdag, every subset of start "
+    "keys (also the empty list; a single key passed bare; key names either strings or the falsy-but-legal keys 0, '', ()), both through the `dependencies=` argument and as real legacy graphs. Assertions: toposort returns every key exactly "
     "once with dependencies first and raises RuntimeError iff the graph is cyclic (oracle: independent reachability closure); "
     "getcycle returns [] iff no cycle is reachable from the start keys, otherwise a list whose consecutive elements are real "
     "dependency edges, that closes (first == last) and is reachable from the keys; isdag == not getcycle. Inputs carry no "
@@ -197,17 +197,21 @@ def mk_hashed(N, what):
     return Obligation(f"{what}_sethash[N={N}]", setup, run)
 
 
+FALSY = (0, "", (), "k3")
+
+
 def mk_getcycle(N):
     def setup(e):
         adj = gen(e, N, True)
-        start = [i for i in range(N) if e.flag(f"s{i}")]
-        e.assume(len(start) > 0)
+        start = [i for i in range(N) if e.flag(f"s{i}")]      # may be empty: getcycle(d, []) asks about nothing
         single = e.flag("single_key") if len(start) == 1 else False
-        return adj, start, single
+        falsy = e.flag("falsy_keys")
+        return adj, start, single, falsy
 
-    def run(e, adj, start, single):
+    def run(e, adj, start, single, falsy):
         reach = closure(adj)
-        keys = {i: f"k{i}" for i in adj}
+        # key names: ordinary strings, or the falsy-but-legal keys 0, "", () (a truthiness test on `keys` must not confuse them with "no keys given")
+        keys = {i: (FALSY[i] if falsy else f"k{i}") for i in adj}
         dsk = {keys[i]: (f,) + tuple(keys[j] for j in sorted(adj[i])) for i in adj}
         arg = keys[start[0]] if single else [keys[i] for i in start]
         reachable = set(start)
